@@ -5,6 +5,7 @@ import (
 	"fmt"
 	"os"
 	"path/filepath"
+	"sort"
 	"strconv"
 	"strings"
 
@@ -59,6 +60,15 @@ func runC16(r *run) {
 		}
 		for i := 0; i < nerr; i++ {
 			emit(genErrFile(rg.fork(uint64(1<<40+i)), i))
+		}
+		// the same compositions on disk, spread over two base directories (site templates and a
+		// shared library): the error names the file that holds the construct, and RawLine gives the
+		// line of that file
+		for i := 0; i < nerr/5; i++ {
+			c := genErrFile(rg.fork(uint64(1<<41+i)), i)
+			c.op = "errdisk"
+			c.args = append(c.args, fmt.Sprint(i))
+			emit(c)
 		}
 	}
 	driveCases(r, gen, execC16)
@@ -143,6 +153,8 @@ func execC16(r *run, c caseT) {
 		execRawLine(r, c)
 	case "errfile":
 		execErrFile(r, c)
+	case "errdisk":
+		execErrDisk(r, c)
 	case "lex":
 		src := unhx(c.args[0])
 		obs, toks, lerr := lexObs(src)
@@ -457,5 +469,99 @@ func execRawLine(r *run, c caseT) {
 		r.reject(id, "the error does not point at the line of the offending construct", detail)
 	case !avail || line != bad:
 		r.reject(id, "RawLine does not give the source line the error points at", detail)
+	}
+}
+
+func execErrDisk(r *run, c caseT) {
+	w, name, _ := worldFromArgs(c.args)
+	var i int
+	fmt.Sscanf(c.args[13], "%d", &i)
+	site := filepath.Join(r.outdir, "errdisk", fmt.Sprint(i), "site")
+	shared := filepath.Join(r.outdir, "errdisk", fmt.Sprint(i), "shared")
+	must(os.MkdirAll(site, 0o755))
+	must(os.MkdirAll(shared, 0o755))
+	k := 0
+	var names []string
+	for fn := range w.files[0] {
+		names = append(names, fn)
+	}
+	sort.Strings(names)
+	for _, fn := range names {
+		dir := shared
+		if fn == name || (i+k)%3 == 0 {
+			dir = site
+		}
+		k++
+		must(os.WriteFile(filepath.Join(dir, fn), []byte(w.files[0][fn]), 0o644))
+	}
+	set := pongo2.NewSet("errdisk", pongo2.MustNewLocalFileSystemLoader(site), pongo2.MustNewLocalFileSystemLoader(shared))
+	var perr *pongo2.Error
+	obs := "none"
+	func() {
+		defer func() {
+			if p := recover(); p != nil {
+				obs = "panic:" + fmt.Sprint(p)
+			}
+		}()
+		tpl, err := set.FromFile(name)
+		if err == nil {
+			_, err = tpl.Execute(pongo2.Context{"boom": func() (*pongo2.Value, error) { return nil, errors.New("boom") }, "incname": "inc.html", "a": 1})
+		}
+		if err != nil {
+			perr, _ = err.(*pongo2.Error)
+			obs = "plainerr"
+		}
+	}()
+	rawLine, avail := "", false
+	if perr != nil {
+		rawLine, avail, _ = perr.RawLine()
+		rel := strings.TrimPrefix(strings.TrimPrefix(perr.Filename, site), shared)
+		obs = fmt.Sprintf("%s:%d:%d:%v", rel, perr.Line, perr.Column, avail)
+	}
+	id := r.emit(c.op, c.args, "errdisk:"+hx(obs))
+	r.nontrivial("errdisk" + c.args[13])
+	detail := map[string]any{"files": w.files[0], "site_dir": site, "shared_dir": shared, "observed": obs}
+	switch {
+	case strings.HasPrefix(obs, "panic"):
+		r.reject(id, "panic", detail)
+		return
+	case perr == nil:
+		r.reject(id, "a failing construct produced no pongo2 error", detail)
+		return
+	}
+	// the named source: an absolute path, or a name the set's loaders resolve (first one that has it)
+	named, rerr := os.ReadFile(perr.Filename)
+	if !filepath.IsAbs(perr.Filename) {
+		named, rerr = os.ReadFile(filepath.Join(site, perr.Filename))
+		if rerr != nil {
+			named, rerr = os.ReadFile(filepath.Join(shared, perr.Filename))
+		}
+	}
+	if rerr != nil {
+		detail["filename"] = perr.Filename
+		r.reject(id, "the error names a file that neither exists nor is served by the set's loaders", detail)
+		return
+	}
+	if perr.Line > 0 {
+		off, ok := offsetOf(string(named), perr.Line, perr.Column)
+		if !ok {
+			r.reject(id, "error position outside the named file", detail)
+			return
+		}
+		_ = off
+		if perr.Token != nil && perr.Token.Line == perr.Line && perr.Token.Col == perr.Column {
+			if why := tokenAt(string(named), perr.Token); why != "" {
+				detail["token"] = perr.Token.String()
+				r.reject(id, "error: "+why+" (in the named file)", detail)
+				return
+			}
+		}
+		if avail {
+			lines := strings.Split(string(named), "\n")
+			if perr.Line > len(lines) || rawLine != lines[perr.Line-1] {
+				detail["rawline"] = rawLine
+				r.reject(id, "RawLine is not the line of the named file the error points at", detail)
+			}
+		}
 	}
 }
